@@ -147,6 +147,13 @@ func c15(ctx *Ctx) (*Outcome, error) {
 		off.Pair = &sem.Case{Root: off.Root, Sig: off.Sig, Args: []string{"--min-sized-ints"}}
 		cases = append(cases, off)
 	}
+	for i := 0; i < 12; i++ {
+		off := sizedTwinCase(i)
+		on := sizedTwinCase(i)
+		on.Args = []string{"--min-sized-ints"}
+		off.Pair = on
+		cases = append(cases, off)
+	}
 	for i := 0; i < 72; i++ {
 		// bounds that meet in one point or in none
 		off := emptyIntervalCase(i)
